@@ -5,10 +5,12 @@
 //! (which no model output equals), otherwise the common value.
 #![allow(clippy::all)]
 use crate::util::*;
+use crypto_bigint::modular::{ConstMontyForm, ConstMontyParams};
+use crypto_bigint::subtle::{Choice, ConstantTimeEq, CtOption};
 use crypto_bigint::{
-    ArrayDecoding, ArrayEncoding, BoxedUint, ByteArray, Concat, ConcatMixed, Encoding, I64, I128, Int, Limb,
-    NonZero, Odd, Split, SplitMixed, U64, U128, U192, U256, U320, U384, U448, U512, U768, U1024, U2048, Uint,
-    WideWord, Word,
+    ArrayDecoding, ArrayEncoding, BoxedUint, ByteArray, Checked, Concat, ConcatMixed, ConstZero, DecodeError, Encoding,
+    I64, I128, Int, Limb, NonZero, Odd, RandomBitsError, Split, SplitMixed, U64, U128, U192, U256, U320, U384, U448,
+    U512, U768, U1024, U2048, Uint, WideWord, Word, Wrapping, impl_modulus,
 };
 use std::fmt;
 
@@ -49,6 +51,119 @@ where
     })
 }
 
+/// the formatting traits `NonZero<T>` / `Odd<T>` forward to the wrapped value (no `Debug`: that one is derived)
+fn wrap_fmt_kind<T>(kind: &str, v: &T) -> Option<String>
+where
+    T: fmt::LowerHex + fmt::UpperHex + fmt::Display + fmt::Binary,
+{
+    Some(match kind {
+        "x" => format!("{v:x}"),
+        "X" => format!("{v:X}"),
+        "d" => format!("{v}"),
+        "b" => format!("{v:b}"),
+        "#x" => format!("{v:#x}"),
+        "#X" => format!("{v:#X}"),
+        "#b" => format!("{v:#b}"),
+        _ => return None,
+    })
+}
+
+fn flag(s: &str) -> Option<bool> {
+    match s {
+        "0" => Some(false),
+        "1" => Some(true),
+        _ => None,
+    }
+}
+
+/// A minimal wrappable type with an `Octal` impl (no crate type has one): lets the `fmt::Octal` forwarding impls of
+/// `NonZero<T>` / `Odd<T>` be instantiated.  `NonZero::new` needs `Zero` (= `ConstZero + ConstantTimeEq`),
+/// `Odd::default` needs `num_traits::One`.
+#[derive(Clone, Copy, Debug, PartialEq)]
+struct Oct(u64);
+impl ConstantTimeEq for Oct {
+    fn ct_eq(&self, other: &Self) -> Choice {
+        self.0.ct_eq(&other.0)
+    }
+}
+impl core::ops::Add for Oct {
+    type Output = Oct;
+    fn add(self, rhs: Oct) -> Oct {
+        Oct(self.0.wrapping_add(rhs.0))
+    }
+}
+impl num_traits::Zero for Oct {
+    fn zero() -> Self {
+        Oct(0)
+    }
+    fn is_zero(&self) -> bool {
+        self.0 == 0
+    }
+}
+impl ConstZero for Oct {
+    const ZERO: Self = Oct(0);
+}
+impl core::ops::Mul for Oct {
+    type Output = Oct;
+    fn mul(self, rhs: Oct) -> Oct {
+        Oct(self.0.wrapping_mul(rhs.0))
+    }
+}
+impl num_traits::One for Oct {
+    fn one() -> Self {
+        Oct(1)
+    }
+}
+impl fmt::Octal for Oct {
+    fn fmt(&self, f: &mut fmt::Formatter<'_>) -> fmt::Result {
+        fmt::Octal::fmt(&self.0, f)
+    }
+}
+
+/// `Display` payload for `RandomBitsError::RandCore`
+struct Msg(String);
+impl fmt::Display for Msg {
+    fn fmt(&self, f: &mut fmt::Formatter<'_>) -> fmt::Result {
+        f.write_str(&self.0)
+    }
+}
+
+// compile-time moduli for the `ConstMontyForm` serde ops (the op line repeats the modulus; it is compared)
+impl_modulus!(C16M1, U64, "ffffffff00000001");
+impl_modulus!(C16M2, U128, "00000000000000010000000000000001");
+impl_modulus!(C16M4, U256, "ffffffff00000000ffffffffffffffffbce6faada7179e84f3b9cac2fc632551");
+
+/// `Serialize` / `Deserialize for ConstMontyForm<MOD, N>`: the Montgomery representation itself is (de)serialised,
+/// so the ops work on raw representations (`from_montgomery` / `as_montgomery`); the conversion is C08's.
+fn cm_ops<M: ConstMontyParams<N>, const N: usize>(op: &str, a: &[&str]) -> Option<String>
+where
+    Uint<N>: Encoding,
+{
+    let [m, rest @ ..] = a else { return Some(BAD.into()) };
+    if arg!(uint::<N>(m)) != *M::MODULUS.as_ref() {
+        return Some(BAD.into());
+    }
+    Some(match (op, rest) {
+        ("c16.cm.serde_ser", [v]) => {
+            bytes_tok(&bincode::serialize(&ConstMontyForm::<M, N>::from_montgomery(arg!(uint::<N>(v)))).unwrap())
+        }
+        ("c16.cm.serde_de", [b]) => match bincode::deserialize::<ConstMontyForm<M, N>>(&arg!(bytes(b))) {
+            Ok(f) => uhex(f.as_montgomery()),
+            Err(_) => "err:serde".into(),
+        },
+        // de(ser(new(v))) is accepted (a constructed form is always reduced) and retrieves v mod m
+        ("c16.cm.roundtrip", [v]) => {
+            let f = ConstMontyForm::<M, N>::new(&arg!(uint::<N>(v)));
+            match bincode::deserialize::<ConstMontyForm<M, N>>(&bincode::serialize(&f).unwrap()) {
+                Ok(g) if g == f => format!("ok {}", uhex(&g.retrieve())),
+                Ok(_) => "forms-differ roundtrip".into(),
+                Err(_) => "err:serde".into(),
+            }
+        }
+        _ => return None,
+    })
+}
+
 /// forms that need the concrete alias type (inherent `to_*_bytes`, `Encoding::Repr`, hybrid-array, serde)
 trait Forms: Sized {
     fn enc_be(&self) -> Vec<Vec<u8>>;
@@ -63,6 +178,12 @@ trait Forms: Sized {
     fn nz_le_arr(b: &[u8]) -> Option<Option<Self>>;
     fn ser(&self) -> Vec<u8>;
     fn de(b: &[u8]) -> Option<Self>;
+    /// coverage round: `Serialize`/`Deserialize for Wrapping<T>` and `for Checked<T>` (bincode)
+    fn w_ser(&self) -> Vec<u8>;
+    fn w_de(b: &[u8]) -> Option<Self>;
+    /// `some = false`: a `Checked` whose `CtOption` is none (the inner value is hidden)
+    fn ck_ser(&self, some: bool) -> Vec<u8>;
+    fn ck_de(b: &[u8]) -> Option<Option<Self>>;
 }
 
 macro_rules! forms_common {
@@ -80,6 +201,19 @@ macro_rules! forms_common {
         }
         fn de(b: &[u8]) -> Option<Self> {
             bincode::deserialize::<$t>(b).ok()
+        }
+        fn w_ser(&self) -> Vec<u8> {
+            bincode::serialize(&Wrapping(*self)).unwrap()
+        }
+        fn w_de(b: &[u8]) -> Option<Self> {
+            bincode::deserialize::<Wrapping<$t>>(b).ok().map(|w| w.0)
+        }
+        fn ck_ser(&self, some: bool) -> Vec<u8> {
+            let c = if some { Checked::new(*self) } else { Checked(CtOption::new(*self, Choice::from(0))) };
+            bincode::serialize(&c).unwrap()
+        }
+        fn ck_de(b: &[u8]) -> Option<Option<Self>> {
+            bincode::deserialize::<Checked<$t>>(b).ok().map(|c| Option::<$t>::from(c))
         }
     };
 }
@@ -280,6 +414,87 @@ where
         ("c16.i.fmt", [kind, v]) => bytes_tok(arg!(fmt_kind(kind, &arg!(int::<N>(v)))).as_bytes()),
         ("c16.u.serde_ser", [v]) => bytes_tok(&arg!(uint::<N>(v)).ser()),
         ("c16.u.serde_de", [b]) => Uint::<N>::de(&arg!(bytes(b))).map(|x| uhex(&x)).unwrap_or("err:serde".into()),
+        // ---------------- coverage round: serde of the Wrapping / Checked wrappers
+        ("c16.w.serde_ser", [v]) => bytes_tok(&arg!(uint::<N>(v)).w_ser()),
+        ("c16.w.serde_de", [b]) => Uint::<N>::w_de(&arg!(bytes(b))).map(|x| uhex(&x)).unwrap_or("err:serde".into()),
+        ("c16.ck.serde_ser", [some, v]) => bytes_tok(&arg!(uint::<N>(v)).ck_ser(arg!(flag(some)))),
+        ("c16.ck.serde_de", [b]) => match Uint::<N>::ck_de(&arg!(bytes(b))) {
+            None => "err:serde".into(),
+            Some(None) => "none".into(),
+            Some(Some(x)) => format!("some {}", uhex(&x)),
+        },
+        // ---------------- coverage round: word / limb views of Int; mutable views of Uint and Int
+        ("c16.i.words", [v]) => {
+            let x = arg!(int::<N>(v));
+            let l: [Limb; N] = x.to_limbs();
+            let forms: Vec<Vec<Word>> = vec![
+                x.to_words().to_vec(),
+                x.as_words().to_vec(),
+                AsRef::<[Word; N]>::as_ref(&x).to_vec(),
+                l.iter().map(|l| l.0).collect(),
+                x.as_limbs().iter().map(|l| l.0).collect(),
+                AsRef::<[Limb]>::as_ref(&x).iter().map(|l| l.0).collect(),
+            ];
+            let back = [Int::<N>::from_words(x.to_words()), Int::<N>::new(l)];
+            if back.iter().any(|b| *b != x) {
+                return Some("forms-differ from_words".into());
+            }
+            agree(forms, |w| words_tok(w))
+        }
+        ("c16.u.words_mut", [v, i, w]) => {
+            let (x, i, w) = (arg!(uint::<N>(v)), arg!(dec(i)), arg!(word(w)));
+            if i >= N {
+                return Some(BAD.into());
+            }
+            let (mut a, mut b, mut c, mut d) = (x, x, x, x);
+            a.as_words_mut()[i] = w;
+            b.as_limbs_mut()[i] = Limb(w);
+            AsMut::<[Word; N]>::as_mut(&mut c)[i] = w;
+            let view: &mut [Limb] = AsMut::<[Limb]>::as_mut(&mut d);
+            if view.len() != N {
+                return Some("forms-differ len".into());
+            }
+            view[i] = Limb(w);
+            agree(vec![a, b, c, d], |r| uhex(r))
+        }
+        ("c16.i.words_mut", [v, i, w]) => {
+            let (x, i, w) = (arg!(int::<N>(v)), arg!(dec(i)), arg!(word(w)));
+            if i >= N {
+                return Some(BAD.into());
+            }
+            let (mut a, mut b, mut c, mut d) = (x, x, x, x);
+            a.as_words_mut()[i] = w;
+            b.as_limbs_mut()[i] = Limb(w);
+            AsMut::<[Word; N]>::as_mut(&mut c)[i] = w;
+            let view: &mut [Limb] = AsMut::<[Limb]>::as_mut(&mut d);
+            if view.len() != N {
+                return Some("forms-differ len".into());
+            }
+            view[i] = Limb(w);
+            agree(vec![a, b, c, d], |r| ihex(r))
+        }
+        // ---------------- coverage round: From<Odd<Uint>> / From<&Odd<Uint>> for BoxedUint
+        ("c16.b.from_odd", [v]) => match Option::<Odd<Uint<N>>>::from(Odd::new(arg!(uint::<N>(v)))) {
+            None => "none".into(),
+            Some(o) => agree(vec![BoxedUint::from(o), BoxedUint::from(&o)], |b| bhexlen(b)),
+        },
+        // ---------------- coverage round: formatting forwarded by NonZero<T> / Odd<T>
+        ("c16.nz.fmt", [kind, v]) => match Option::<NonZero<Uint<N>>>::from(NonZero::new(arg!(uint::<N>(v)))) {
+            None => "none".into(),
+            Some(w) => bytes_tok(arg!(wrap_fmt_kind(kind, &w)).as_bytes()),
+        },
+        ("c16.odd.fmt", [kind, v]) => match Option::<Odd<Uint<N>>>::from(Odd::new(arg!(uint::<N>(v)))) {
+            None => "none".into(),
+            Some(w) => bytes_tok(arg!(wrap_fmt_kind(kind, &w)).as_bytes()),
+        },
+        ("c16.nz.i.fmt", [kind, v]) => match Option::<NonZero<Int<N>>>::from(arg!(int::<N>(v)).to_nz()) {
+            None => "none".into(),
+            Some(w) => bytes_tok(arg!(wrap_fmt_kind(kind, &w)).as_bytes()),
+        },
+        ("c16.odd.i.fmt", [kind, v]) => match Option::<Odd<Int<N>>>::from(arg!(int::<N>(v)).to_odd()) {
+            None => "none".into(),
+            Some(w) => bytes_tok(arg!(wrap_fmt_kind(kind, &w)).as_bytes()),
+        },
         ("c16.b.from_uint", [v]) => {
             let x = arg!(uint::<N>(v));
             agree(vec![BoxedUint::from(x), BoxedUint::from(&x)], |b| bhexlen(b))
@@ -457,6 +672,32 @@ fn boxed_op(op: &str, a: &[&str]) -> Option<String> {
             let limbs: Vec<Limb> = w.iter().map(|x| Limb(*x)).collect();
             agree(vec![BoxedUint::from(&limbs[..]), BoxedUint::from_words(w.clone())], |b| bhexlen(b))
         }
+        ("c16.b.words_mut", [n, v, i, w]) => {
+            let (x, i, w) = (arg!(boxed(v, arg!(dec(n)))), arg!(dec(i)), arg!(word(w)));
+            if i >= x.nlimbs() {
+                return Some(BAD.into());
+            }
+            let (mut a, mut b, mut c, mut d) = (x.clone(), x.clone(), x.clone(), x.clone());
+            a.as_words_mut()[i] = w;
+            b.as_limbs_mut()[i] = Limb(w);
+            let vw: &mut [Word] = AsMut::<[Word]>::as_mut(&mut c);
+            let lw = vw.len();
+            vw[i] = w;
+            let vl: &mut [Limb] = AsMut::<[Limb]>::as_mut(&mut d);
+            if lw != x.nlimbs() || vl.len() != x.nlimbs() {
+                return Some("forms-differ len".into());
+            }
+            vl[i] = Limb(w);
+            agree(vec![a, b, c, d], |r| bhexlen(r))
+        }
+        ("c16.nz.b.fmt", [n, kind, v]) => match Option::<NonZero<BoxedUint>>::from(NonZero::new(arg!(boxed(v, arg!(dec(n)))))) {
+            None => "none".into(),
+            Some(w) => bytes_tok(arg!(wrap_fmt_kind(kind, &w)).as_bytes()),
+        },
+        ("c16.odd.b.fmt", [n, kind, v]) => match Option::<Odd<BoxedUint>>::from(Odd::new(arg!(boxed(v, arg!(dec(n)))))) {
+            None => "none".into(),
+            Some(w) => bytes_tok(arg!(wrap_fmt_kind(kind, &w)).as_bytes()),
+        },
         ("c16.b.words", [n, v]) => {
             let x = arg!(boxed(v, arg!(dec(n))));
             let forms: Vec<Vec<Word>> = vec![
@@ -486,6 +727,25 @@ fn limb_op(op: &str, a: &[&str]) -> Option<String> {
             lhex(<Limb as Encoding>::from_le_bytes(r))
         }
         ("c16.l.fmt", [kind, w]) => bytes_tok(arg!(fmt_kind(kind, &arg!(limb(w)))).as_bytes()),
+        // ---------------- coverage round
+        ("c16.l.serde_ser", [w]) => {
+            let l = arg!(limb(w));
+            agree(vec![bincode::serialize(&l).unwrap(), bincode::serialize(&Wrapping(l)).unwrap()], |b| bytes_tok(b))
+        }
+        ("c16.l.serde_de", [b]) => {
+            let b = arg!(bytes(b));
+            let forms = vec![bincode::deserialize::<Limb>(&b).ok(), bincode::deserialize::<Wrapping<Limb>>(&b).ok().map(|w| w.0)];
+            agree(forms, |r| r.map(lhex).unwrap_or("err:serde".into()))
+        }
+        ("c16.l.to_prim", [w]) => {
+            let l = arg!(limb(w));
+            format!("{:x} {:x}", Word::from(l), WideWord::from(l))
+        }
+        ("c16.nz.l.fmt", [kind, w]) => match Option::<NonZero<Limb>>::from(NonZero::new(arg!(limb(w)))) {
+            None => "none".into(),
+            Some(x) => bytes_tok(arg!(wrap_fmt_kind(kind, &x)).as_bytes()),
+        },
+        ("c16.odd.l.fmt", [kind]) => bytes_tok(arg!(wrap_fmt_kind(kind, &Odd::<Limb>::default())).as_bytes()),
         _ => return None,
     })
 }
@@ -507,9 +767,71 @@ fn hook_op(op: &str, a: &[&str]) -> Option<String> {
     }
 }
 
+/// `fmt::Octal for NonZero<T>` / `Odd<T>` (through the local `Oct`), and the `Display` texts of the error enums
+fn misc_op(op: &str, a: &[&str]) -> Option<String> {
+    Some(match (op, a) {
+        ("c16.nz.octal", [kind, v]) => match Option::<NonZero<Oct>>::from(NonZero::new(Oct(arg!(word(v))))) {
+            None => "none".into(),
+            Some(w) => bytes_tok(
+                match *kind {
+                    "o" => format!("{w:o}"),
+                    "#o" => format!("{w:#o}"),
+                    _ => return Some(BAD.into()),
+                }
+                .as_bytes(),
+            ),
+        },
+        ("c16.odd.octal", [kind]) => {
+            let w = Odd::<Oct>::default();
+            bytes_tok(
+                match *kind {
+                    "o" => format!("{w:o}"),
+                    "#o" => format!("{w:#o}"),
+                    _ => return Some(BAD.into()),
+                }
+                .as_bytes(),
+            )
+        }
+        ("c16.err.decode", [kind]) => {
+            let e = match *kind {
+                "Empty" => DecodeError::Empty,
+                "InvalidDigit" => DecodeError::InvalidDigit,
+                "InputSize" => DecodeError::InputSize,
+                "Precision" => DecodeError::Precision,
+                _ => return Some(BAD.into()),
+            };
+            bytes_tok(format!("{e}").as_bytes())
+        }
+        // the text of the error a boxed decoder actually returns
+        ("c16.err.boxed_decode", [bp, b]) => match BoxedUint::from_be_slice(&arg!(bytes(b)), arg!(dec32(bp))) {
+            Ok(_) => "ok".into(),
+            Err(e) => bytes_tok(format!("{e}").as_bytes()),
+        },
+        ("c16.err.randbits", ["rand_core", t]) => bytes_tok(format!("{}", RandomBitsError::RandCore(Msg(arg!(text(t))))).as_bytes()),
+        ("c16.err.randbits", ["mismatch", x, y]) => bytes_tok(
+            format!("{}", RandomBitsError::<Msg>::BitsPrecisionMismatch { bits_precision: arg!(dec32(x)), integer_bits: arg!(dec32(y)) })
+                .as_bytes(),
+        ),
+        ("c16.err.randbits", ["too_large", x, y]) => bytes_tok(
+            format!("{}", RandomBitsError::<Msg>::BitLengthTooLarge { bit_length: arg!(dec32(x)), bits_precision: arg!(dec32(y)) })
+                .as_bytes(),
+        ),
+        _ => return None,
+    })
+}
+
 pub fn dispatch(op: &str, a: &[&str]) -> Option<String> {
     match (op, a) {
         _ if op.starts_with("c16.hook.") => hook_op(op, a),
+        _ if op.starts_with("c16.err.") || op.ends_with(".octal") => misc_op(op, a),
+        _ if op.starts_with("c16.cm.") && !a.is_empty() => match arg!(dec(a[0])) {
+            1 => cm_ops::<C16M1, 1>(op, &a[1..]),
+            2 => cm_ops::<C16M2, 2>(op, &a[1..]),
+            4 => cm_ops::<C16M4, 4>(op, &a[1..]),
+            _ => Some("unsupported-width".into()),
+        },
+        _ if op.starts_with("c16.nz.l.") || op.starts_with("c16.odd.l.") => limb_op(op, a),
+        _ if op.starts_with("c16.nz.b.") || op.starts_with("c16.odd.b.") => boxed_op(op, a),
         ("c16.u.concat", [l, h, lo, hi]) => concat_dispatch(arg!(dec(l)), arg!(dec(h)), lo, hi),
         ("c16.u.split", [l, h, x]) => split_dispatch(arg!(dec(l)), arg!(dec(h)), x),
         ("c16.u.resize" | "c16.i.resize", [n, t, v]) => resize_dispatch(op, arg!(dec(n)), arg!(dec(t)), v),
@@ -524,7 +846,7 @@ pub fn dispatch(op: &str, a: &[&str]) -> Option<String> {
             Some(format!("{:x}", i128::from(x) as u128))
         }
         _ if op.starts_with("c16.l.") => limb_op(op, a),
-        _ if op.starts_with("c16.b.") && op != "c16.b.from_uint" => boxed_op(op, a),
+        _ if op.starts_with("c16.b.") && op != "c16.b.from_uint" && op != "c16.b.from_odd" => boxed_op(op, a),
         _ if !a.is_empty() => {
             let n = arg!(dec(a[0]));
             let rest = &a[1..];
